@@ -3,7 +3,7 @@ CONSTANTS
   Apis = {"query", "send"}
   Nests = {"none", "query"}
   Kinds = {"ok", "nx", "servfail", "refused", "notimp", "formerr", "formerr_noopt", "tc", "garbage", "wrongid", "empty"}
-  Faults = {"sendto", "recvfrom"}
+  Faults = {"sendto", "recvfrom", "socket", "connect"}
   Extras = {"timeout", "cancel", "setservers", "tick"}
   MaxReq = 2
   MaxLen = 4
